@@ -844,7 +844,7 @@ def gen_setup(rng, mode):
         return case
 
 
-OPKINDS = ['pdef', 'prah', 'ship_attr', 'rah_attr', 'rah_combo', 'shift', 'shift_hp', 'shift_split', 'cycle', 'state', 'ship_replace',
+OPKINDS = ['pdef', 'prah', 'pone', 'pone', 'ship_attr', 'rah_attr', 'rah_combo', 'shift', 'shift_hp', 'shift_split', 'cycle', 'state', 'ship_replace',
            'ship_remove_add', 'tuner-']
 
 
@@ -877,6 +877,18 @@ def gen_history(rng, mode):
         for _ in range(20):     # retry until the changed inputs stay in range
             if kind == 'pdef':
                 op = [['pdef', gen_profile(rng, mode)]]
+            elif kind == 'pone':
+                # the effective profile changes in ONE damage type only (the others stay what they were)
+                which = 'prah' if case['prah'] is not None else 'pdef'
+                cur = list(case[which])
+                j = rng.randrange(4)
+                newv = gen_profile(rng, mode)[j]
+                if newv == cur[j]:
+                    newv = gen_profile(rng, mode)[(j + 1) % 4]
+                cur[j] = newv
+                if all(x in ('0', 0) for x in cur):
+                    cur[j] = '1'
+                op = [[which, cur]]
             elif kind == 'prah':
                 op = [['prah', None if (case['prah'] is not None and rng.random() < 0.4)
                        else gen_profile(rng, mode)]]
@@ -1196,6 +1208,128 @@ def pmap(fn, items):
         return pool.map(fn, items, chunksize=max(1, len(items) // 256))
 
 
+def fleet_worlds(rng, steps):
+    """two or three fits of one fleet in one solar system, each with a loaded ship and a running reactive
+    armor hardener; fit 0 also carries command bursts whose buffs change one armor resonance of every fleet
+    ship. [steps]: list of (kind, arg). Returns the observed (ship, hardener) armor resonances of every fit
+    after each step. The simulator of a fit must follow changes made on behalf of another fit."""
+    from eos import Fit, Fleet, SolarSystem, Ship, ModuleLow, ModuleHigh, State, DmgProfile
+    from eos.const.eve import AttrId, EffectId, EffectCategoryId, TypeCategoryId
+    from eos.const.eos import ModAffecteeFilter, ModAggregateMode, ModOperator
+    from eos.eve_obj.buff_template import WarfareBuffTemplate
+    set_mode('exact')
+    A = [AttrId.armor_em_dmg_resonance, AttrId.armor_therm_dmg_resonance,
+         AttrId.armor_kin_dmg_resonance, AttrId.armor_expl_dmg_resonance]
+    src, ch = mksource()
+    for a in A:
+        ch.mkattr(a, high_is_good=False, stackable=False)
+    ch.mkattr(CYCLE, high_is_good=False, stackable=True)
+    ch.mkattr(AttrId.resist_shift_amount, high_is_good=True, stackable=True)
+    for a in (AttrId.warfare_buff_1_id, AttrId.warfare_buff_1_value, AttrId.warfare_buff_2_id,
+              AttrId.warfare_buff_2_value, AttrId.warfare_buff_3_id, AttrId.warfare_buff_3_value,
+              AttrId.warfare_buff_4_id, AttrId.warfare_buff_4_value):
+        ch.mkattr(a)
+    rah_effect = ch.mkeffect(EffectId.adaptive_armor_hardener, category_id=EffectCategoryId.active,
+                             duration_attr_id=CYCLE)
+    burst_effects = [ch.mkeffect(e, category_id=EffectCategoryId.active)
+                     for e in (EffectId.module_bonus_warfare_link_armor, EffectId.module_bonus_warfare_link_shield)]
+    for b, attr in ((10, A[2]), (11, A[1])):
+        ch.buffs[b] = [WarfareBuffTemplate(buff_id=b, affectee_filter=ModAffecteeFilter.item,
+                                           affectee_filter_extra_arg=None, affectee_attr_id=attr,
+                                           operator=ModOperator.post_percent,
+                                           aggregate_mode=ModAggregateMode.minimum)]
+    ch.mktype(1, category_id=TypeCategoryId.ship, attrs={A[0]: 0.5, A[1]: 0.5, A[2]: 0.5, A[3]: 0.5})
+    ch.mktype(2, category_id=TypeCategoryId.module, attrs={A[0]: 0.875, A[1]: 0.875, A[2]: 0.875, A[3]: 0.875,
+                                                           AttrId.resist_shift_amount: 6.0, CYCLE: 5000.0},
+              effects=[rah_effect], default_effect=rah_effect)
+    ch.mktype(3, category_id=TypeCategoryId.module,
+              attrs={AttrId.warfare_buff_1_id: 10, AttrId.warfare_buff_1_value: -25.0},
+              effects=[burst_effects[0]], default_effect=burst_effects[0])
+    ch.mktype(4, category_id=TypeCategoryId.module,
+              attrs={AttrId.warfare_buff_1_id: 11, AttrId.warfare_buff_1_value: -50.0},
+              effects=[burst_effects[1]], default_effect=burst_effects[1])
+    solsys = SolarSystem(source=src)
+    fleet = Fleet()
+    nfits = 3
+    fits, rahs, bursts = [], [], []
+    profile = DmgProfile(4, 3, 4, 1)
+
+    def observe():
+        out = []
+        for fit, rah in zip(fits, rahs):
+            row = []
+            for item in (fit.ship, rah):
+                for a in A:
+                    try:
+                        row.append(round(item.attrs[a], 12))
+                    except Exception as e:  # noqa
+                        row.append('!' + type(e).__name__)
+            out.append(row)
+        return out
+    for k in range(nfits):
+        fit = Fit(solar_system=solsys)
+        fit.default_incoming_dmg = profile
+        fit.ship = Ship(1)
+        rah = ModuleLow(2, state=State.active)
+        fit.modules.low.append(rah)
+        fits.append(fit)
+        rahs.append(rah)
+    for t in (3, 4):
+        m = ModuleHigh(t, state=State.online)
+        fits[0].modules.high.append(m)
+        bursts.append(m)
+    obs = []
+    for kind, arg in steps:
+        if kind == 'join':
+            fleet.fits.add(fits[arg])
+        elif kind == 'leave':
+            fleet.fits.remove(fits[arg])
+        elif kind == 'burst':
+            bursts[arg[0]].state = State.active if arg[1] else State.online
+        elif kind == 'read':
+            pass
+        obs.append(observe() if kind == 'read' else None)
+    return obs, observe()
+
+
+def fleet_history(rng):
+    joined = set()
+    on = [False, False]
+    steps = []
+    for _ in range(rng.randint(4, 9)):
+        k = rng.random()
+        if k < 0.35:
+            f = rng.randrange(3)
+            if f in joined:
+                joined.discard(f)
+                steps.append(('leave', f))
+            else:
+                joined.add(f)
+                steps.append(('join', f))
+        else:
+            b = rng.randrange(2)
+            on[b] = not on[b]
+            steps.append(('burst', (b, on[b])))
+        if rng.random() < 0.6:
+            steps.append(('read', None))
+    # the same final configuration, reached directly (fleet first, bursts last, nothing read in between)
+    direct = [('join', f) for f in sorted(joined)] + [('burst', (b, True)) for b in (0, 1) if on[b]]
+    return steps, direct
+
+
+def oracle_fleet(rng, n):
+    """reactive armor hardeners of fits that share a fleet: after any history of joins, leaves and burst
+    switches (with reads in between) every ship and hardener resonance equals the one of the same fleet
+    assembled directly. -> None or a failing history"""
+    for _ in range(n):
+        steps, direct = fleet_history(rng)
+        _, got = fleet_worlds(rng, steps)
+        _, want = fleet_worlds(rng, direct)
+        if got != want:
+            return {'steps': steps, 'direct': direct, 'history_built': got, 'assembled_directly': want}
+    return None
+
+
 def nontrivial_setup(case, m):
     return m['status'] == 'ok' and m['how'].split(':')[0] in ('loop', 'history')
 
@@ -1323,6 +1457,15 @@ def run(rep):
                 dis_hist.insert(0, (idx[0], 0, 'witness of fixed finding %s fails again' % f['id']))
     rep.cov['fixed_findings_replayed'] = fixed
     finish(rep, setups, sres, hists, hres, dis_set, dis_hist, max_ticks)
+    if rep.violations:
+        return
+    # fits that share a fleet: each has its own simulator, a command burst changes ship resonances of all
+    nfl = 40 if rep.tier == 'quick' else 1500
+    why = oracle_fleet(random.Random(rep.seed + 5), nfl)
+    rep.cov['fleet_histories_compared_with_direct_assembly'] = nfl
+    if why:
+        rep.violation({'kind': 'fleet_history', 'fails': 'hardeners of fleet members: the world built by %r differs '
+                       'from the same fleet assembled directly' % (why['steps'],), 'detail': why})
 
 
 def finish(rep, setups, sres, hists, hres, dis_set, dis_hist, max_ticks):
@@ -1394,6 +1537,16 @@ def finish(rep, setups, sres, hists, hres, dis_set, dis_hist, max_ticks):
 
 def replay(path):
     r = json.load(open(path))
+    if r.get('kind') == 'fleet_history':
+        d = r['detail']
+        steps = [(k, tuple(a) if isinstance(a, list) else a) for k, a in d['steps']]
+        direct = [(k, tuple(a) if isinstance(a, list) else a) for k, a in d['direct']]
+        got = fleet_worlds(None, steps)[1]
+        want = fleet_worlds(None, direct)[1]
+        print('history-built     :', got)
+        print('assembled directly:', want)
+        print('oracle:', 'property holds on this input' if got == want else 'the two worlds differ')
+        return 0 if got == want else 1
     os.environ.setdefault('OCAMLRUNPARAM', 's=8M')
     max_ticks = 500
     try:
